@@ -231,7 +231,12 @@ def rule_impl(job):
             def render(v):
                 if type(v) is not Vw:
                     return 'NOT-AN-INSTANCE:' + type(v).__name__
-                vals = [getattr(v, f'f{i}') for i in range(len(nargs_.get(v.tag, case['args'])))]
+                args_v = nargs_.get(v.tag, case['args'])
+                vals = [getattr(v, f'f{i}') for i in range(len(args_v))]
+                for a_, x_ in zip(args_v, vals):
+                    # a constant list argument: the instance holds the very object the rule was written with
+                    if a_[0] == 'lit' and a_[1][0] == 'l' and x_ is not getattr(b, 'list_constants', {}).get(repr(a_[1])):
+                        return 'CONSTANT-ARGUMENT-COPIED:%d' % v.tag
                 return '%d:%s' % (v.tag, surface.render_row([b.encode(x) for x in vals]))
             for _ in range(opts.get('evals', 1)):
                 known_ = {id(o) for o in _instances(Variable, Vw)}
@@ -677,6 +682,10 @@ def c11(report, rng, tier, findings):
             report.count('constructor_argument_is_a_the_subquery')
         if rng.random() < 0.25:
             case['pre_take'] = rng.randint(1, 3)
+        if case.get('nested_head') and i % 2 == 1:
+            # half of the heads with a nested constructor argument (a variable without a domain whose constraints are
+            # attached lazily, during the first evaluation): the FIRST evaluation is abandoned after one instance
+            case['pre_take'] = 1
         if rng.random() < 0.15:
             case['falsy_head'] = rng.choice(('len', 'bool'))
         if rng.random() < 0.3:
